@@ -659,8 +659,12 @@ def main(argv):
     if badin:
         raise MachineryError(f"harness built an input the spec does not accept: {cases[badin[0]]}")
     dev_hits = {}
+    skipped = 0
     for cid, clause in sorted(rejects.items()):
         c = cases[cid]
+        if clause.startswith("SKIP_"):      # second half of a round trip whose first half is already rejected
+            skipped += 1
+            continue
         detail = {k: v for k, v in c.items() if k != "id"}
         dev = deviation_of(c)
         if dev:
@@ -674,7 +678,8 @@ def main(argv):
         "cases_per_function": byfn,
         "conventions": len(AXES24),
         "gimbal_lock_inputs": gimbal,
-        "rejected": len(rejects),
+        "rejected": len(rejects) - skipped,
+        "round_trips_skipped_after_upstream_reject": skipped,
         "rejected_by_deviation": dev_hits,
         "exhaustive": True,
         "tlc_wall_s": round(wall, 1),
